@@ -337,9 +337,11 @@ func (prop) Generate(rng *core.Rand, tier string, emit func(string)) {
 	ncf := n / 3
 	cfr := rng.Fork()
 	for i := 0; i < ncf; i++ {
-		emit(genCF(cfr))
+		if l := cfLine(genCF(cfr)); l != "" {
+			emit(l)
+		}
 	}
-	for _, l := range []string{"cf 0 0 0000 - 0.0.0", "cf 0 0 000 -;61 0.1.0", "cf 0 0 0000 -;61 3.1.0", "cf 0 0 0000 -;61 0.2.0", "cf 0 0 0000 -;41 0.1.0"} {
+	for _, l := range []string{"cf 0 0 0000 - 0.0.0.0 - -", "cf 0 0 000 -;61 0.1.0.0 - -", "cf 0 0 0000 -;61 3.1.0.0 - -", "cf 0 0 0000 -;61 0.2.0.0 - -", "cf 0 0 0000 -;41 0.1.0.0 - -", "cf 0 0 0000 -;61 0.1.0 - -", "cf 0 0 0000 -;61 0.1.0.2 - -", "cf 0 0 0000 -;61 0.1.0.0 1/x -", "cf 0 0 0000 -;61 0.1.0.0 - 1", "cf 0 0 0000 -;61 0.1.0.0"} {
 		emit(l)
 	}
 	// certmagic's subject predicates against their byte-level models
